@@ -668,4 +668,53 @@ def monC07c : ObsMonitor Obs M7c where
       | some a, some o => some { a := a, o := o }
       | _, _ => none
 
+/-! ## C07, "one running per key, across `ResetRoutine`/`RestartRoutine`", in the form that is proved for
+every model trace (`C07b_obs`)
+
+The product of `monC07a` and `monC06o` with a flag per run: "this run belongs to the generation of the
+record now stored under its key". The flag is set when the routine function is entered while no call is in
+progress, the key is known to be in the set and the run's constructor generation is the current one
+(`cur`); it stays as long as the key is known to have stayed in the set (a new generation starts only when
+the key was not in the set — `ResetRoutine`, `RestartRoutine`, `SetKey`, `SetContext`, retries keep it).
+A routine function must not be entered for the current record of a key while a flagged run of that key is
+still inside its function. -/
+
+structure M7b where
+  a : M7a := {}
+  o : M6o := {}
+  fl : List Bool := []
+
+/-- no call is in progress, `k` is in the set and `d` is the constructor generation of its record -/
+def M7b.cur (m : M7b) (k d : Nat) : Bool :=
+  m.o.pending.isEmpty && m.o.st k == .present && m.o.cnt k == some d
+
+/-- a flagged run of `k` is inside its routine function -/
+def M7b.clash (m : M7b) (k : Nat) : Bool :=
+  (List.range m.a.runs.length).any fun j =>
+    match m.a.runs[j]?, m.fl[j]? with
+    | some (k', _, true), some true => k' == k
+    | _, _ => false
+
+def M7b.bad (m : M7b) : Obs → Bool
+  | .cbin _ k d => m.cur k d && m.clash k
+  | _ => false
+
+/-- the flags with the flag of a run that is entered -/
+def M7b.ext (m : M7b) : Obs → List Bool
+  | .cbin _ k d => m.fl ++ [m.cur k d]
+  | _ => m.fl
+
+/-- a flag survives while the key is known to be in the set -/
+def flagsUpd (a : M7a) (o : M6o) (fl : List Bool) : List Bool :=
+  List.zipWith (fun (r : Nat × Nat × Bool) (f : Bool) => f && (o.st r.1 == .present)) a.runs fl
+
+def monC07b : ObsMonitor Obs M7b where
+  init := {}
+  step := fun m ob =>
+    if m.bad ob then none
+    else
+      match monC07a.step m.a ob, monC06o.step m.o ob with
+      | some a, some o => some { a := a, o := o, fl := flagsUpd a o (m.ext ob) }
+      | _, _ => none
+
 end UtilModel.Keyed
